@@ -1199,6 +1199,8 @@ impl<const M: usize> Sim<M> {
     /// allocator will honour.  Ok is only acceptable if the claimed extent is really held.
     pub fn op_huge(&mut self, rep: &mut Report, which: u8, n: usize, fallible: bool) -> Outcome {
         let name = ["alloc_layout", "slice_fill_with<u64>", "slice_fill_copy<u8>", "slice_fill_default<[u8;3]>", "slice_fill_clone<u32>", "slice_copy<()>", "with_capacity", "slice_fill_iter<u64>", "slice_try_fill_with<u64>", "slice_try_fill_iter<u64>"][which as usize % 10];
+        // alloc_slice_try_fill_{with,iter} exist only in the infallible family (they panic on exhaustion)
+        let fallible = fallible && which % 10 < 8;
         self.cur = format!("huge:{}{}(n={:#x})", if fallible { "try_" } else { "" }, name, n);
         if which % 10 == 6 {
             let ok = self.reconstruct(rep, Some(n), fallible);
@@ -1306,6 +1308,14 @@ impl<const M: usize> Sim<M> {
     /// that fitted before still fits (capacity not reduced).
     pub fn check_unchanged_after_failure(&mut self, rep: &mut Report, before: &Observed, what: &str) {
         let now = self.observe();
+        // the global allocator's view: a call that failed has not obtained (or given back) any block
+        if !self.poisoned && (self.acquired != 0 || self.released != 0) {
+            rep.violate(
+                "C09",
+                format!("C09/failure-changed-held-memory/{}/seen-at-the-global-allocator", what),
+                format!("the failed call obtained {} block(s) from the global allocator and returned {} ({})", self.acquired, self.released, self.cur),
+            );
+        }
         if now.chunks.len() != before.chunks.len() || now.abim != before.abim {
             rep.violate("C09", format!("C09/failure-changed-held-memory/{}", what), format!("chunks {} -> {}, abim {} -> {} ({})", before.chunks.len(), now.chunks.len(), before.abim, now.abim, self.cur));
         } else if now.cap < before.cap {
